@@ -103,6 +103,13 @@ func (st *State) get(fr *frame, v ssa.Value) Value {
 	if !ok {
 		panic(engineGap(fmt.Sprintf("unknown SSA value %s", v.Name())))
 	}
+	if st.known != nil {
+		if t, isT := fr.locals[i].(*Term); isT {
+			if c, hit := st.known[t.id]; hit {
+				return c
+			}
+		}
+	}
 	return fr.locals[i]
 }
 
